@@ -187,6 +187,15 @@ def check(ctx, rep):
         ok = (lo, hi) in (('self._posmask', 'self._mask'), ('self._den_mask >> 4', 'self._den_upper >> 4'))
         rep.ob('normalise.bring-to-range-half-open', '_bring_to_range called with a (2^(n-1)-1, 2^n-1) or (2^k, 2^(k+1)) pair: (%s, %s)' % (lo, hi), ok, '', ctx.where(c))
     rep.floor('normalise.bring-to-range-half-open', len(calls), 3, 'callers of _bring_to_range')
+    # the constructors that estimate the exponent themselves (from a logarithm cut by int(), from the bit length of an
+    # integer) rely on _bring_to_range for the final normalisation: the estimate alone is off by one for some inputs
+    for name in ('Float.from_value', 'Float.from_int'):
+        fn = ctx.fn('%s:%s' % (N, name))
+        own = [c for c in calls if any(c is x for x in own_nodes(fn))]
+        packs = [c for c in own_nodes(fn) if isinstance(c, ast.Call) and norm(c.func) in ('struct.pack_into', 'self._check_limits')]
+        rep.ob('normalise.bring-to-range-in-constructors', '%s normalises its mantissa with _bring_to_range before it is checked and packed' % name,
+               bool(own) and bool(packs) and min(c.lineno for c in own) < min(p_.lineno for p_ in packs),
+               'the exponent estimate is stored as it is: exact powers of two with a negative exponent come back with half their magnitude', ctx.where(fn))
     for cls in ('Single', 'Double'):
         up = ctx.cf.fold(ctx.idx.locate('%s:%s._den_upper' % (N, cls)), ctx.mod(N), {'_den_mask': ctx.cf.fold(ctx.idx.locate('%s:%s._den_mask' % (N, cls)), ctx.mod(N))})
         mask = ctx.cf.fold(ctx.idx.locate('%s:%s._den_mask' % (N, cls)), ctx.mod(N))
@@ -200,6 +209,8 @@ def variants(ctx):
         return lambda tree: f(mu.find_def(tree, fname))
 
     return [
+        Va('from-value-trusts-its-exponent-estimate', 'break', 'pcbasic/basic/values/numbers.py',
+           in_fn('Float.from_value', lambda fn: mu.remove_stmt(fn, mu.stmt_has('self._bring_to_range(', ast.Assign))), expect='normalise.bring-to-range-in-constructors'),
         Va('cint-refuses-minus-32768', 'break', 'pcbasic/basic/values/numbers.py',
            in_fn('Integer.from_int', lambda fn: mu.replace_stmt(fn, mu.text_is('minint, maxint = (-32768, 32767)'), 'minint, maxint = (-32767, 32767)')), expect='shared.range.from_int'),
         Va('negative-zero-not-equal-to-zero', 'break', 'pcbasic/basic/values/numbers.py',
